@@ -79,6 +79,8 @@ def eq_chain_set(ctx, rule, key):
 
 
 def run(ctx):
+    # the codes this property names are the registry values (the rules below speak of them by name)
+    shared.error_code_values(ctx, "C13-d", ("H3_SETTINGS_ERROR", "H3_MISSING_SETTINGS"))
     # constructs shared with other properties: the varint forms every SETTINGS length/identifier/value is written in, and the
     # incremental frame reader that has to hand the peer's SETTINGS frame over once it is complete
     _c16.varint_form_tables(ctx, "C13-a")
@@ -315,6 +317,17 @@ def run(ctx):
                 shapes = ru.residual_error_shapes(ctx, p)[0] if p.ret_shape().startswith("Residual") else {"SettingsError::Malformed"}
                 ctx.check(shapes == {"SettingsError::Malformed"}, "C13-d", dc.key, "truncated entry -> Malformed", "truncation yields %s" % shapes, "")
         ctx.floor("C13-d", "storing iterations of Settings::decode", n_ins, 1)
+        # the smallest complete entry is two one-byte varints: a verdict taken BEFORE anything is decoded may refuse only what is
+        # shorter than that (remaining() <= 1)
+        n_pre = 0
+        for p in its:
+            if p.end != "return" or p.ret_shape() != "Err(SettingsError::Malformed)" or p.calls(SID + "decode") or p.calls("get_var"):
+                continue
+            n_pre += 1
+            lo, hi, _ = expr.interval([(t[3], t[2]) for t in p.tests], lambda v: v[0] == "call" and pa.short(v[1]) == "remaining", consts)
+            ctx.check(hi is not None and hi <= 1, "C13-d", dc.key, "the length pre-check refuses only entries shorter than two bytes",
+                      "Settings::decode answers Malformed before decoding anything while up to %s bytes remain: a frame whose last entry is a "
+                      "complete pair of one-byte varints (e.g. `06 0c`) is refused with H3_SETTINGS_ERROR" % hi, "", None, p.describe())
         rows = {("fb", True): 0, ("sp", False): 0}
         for p in its:
             for t in p.tests:
